@@ -12,6 +12,7 @@ pub mod c09;
 pub mod c10;
 pub mod c13;
 pub mod c14;
+pub mod c17;
 pub mod c18;
 pub mod c19;
 pub mod c20;
@@ -30,6 +31,7 @@ pub fn dispatch(prop: &str, tier: Tier, replay: Option<String>) -> i32 {
         "C10" => c10::run(tier, replay),
         "C13" => c13::run(tier, replay),
         "C14" => c14::run(tier, replay),
+        "C17" => c17::run(tier, replay),
         "C18" => c18::run(tier, replay),
         "C16" => c05::run("C16", tier, replay),
         "C19" => c19::run(tier, replay),
